@@ -118,6 +118,18 @@ func C20(c *core.Ctx) {
 	c20Alias(c)
 	c20Discarded(c)
 	c20Payment(c)
+	// R7: which rows Merge treats as "the same row" is the group identity decided under C02-R1
+	// (a predicate that lets rows of different countries match folds them into one another,
+	// and which of them survives depends on the order of the operands)
+	c.Rule("C20-R7", "the row-matching predicate used by Merge equals the group identity (shared with C02-R1)", 2)
+	sub := core.NewCtx("C02", c.Tier, c.Seed, p, c.VerifDir)
+	sub.Quiet = true
+	c02Matching(sub)
+	for _, o := range sub.Obligations() {
+		if o.Rule == "C02-R1" {
+			c.ObAt("C20-R7", o.Key, o.Pos, o.OK, o.Msg)
+		}
+	}
 }
 
 func c20Negate(c *core.Ctx, leaves []amtLeaf) {
